@@ -23,7 +23,8 @@ OBLIGATIONS = ["NiftyVerif.C01." + t for t in (
     "flip_scaling_sound", "flip_diag_sound", "flip_adapter_sound", "cap_spec",
     "den_chain_mprod", "chainMergeDiag_sound", "chainCollect_sound", "chainAbsorb_sound", "chainFlatten_sound",
     "chainAppend_sound", "chainNullCollapse_sound", "chainPost_sound", "chainSimplifyCore_sound", "mkChainU_sound",
-    "sumAbsorb_sound", "sumAbsorbDiags_sound", "sumMergeDiags_sound",
+    "sumAbsorb_sound", "sumAbsorbDiags_sound", "sumMergeDiags_sound", "sumScalings_split", "sumProcessGroup_sound",
+    "groupKeys_spec", "ssum_groups", "sumFlatten_sound", "sumSimplify_sound", "mkSumU_sound",
 )]
 RULE = ("random construction scripts (typed generator over 8 small domains, 14 leaves with independently known exact "
         "matrices, scaling/diagonal/partial-space diagonal/null/block-diagonal/sandwich/InversionEnabler, combined with "
